@@ -717,6 +717,8 @@ def run(ctx: Ctx) -> Outcome:
     tobs = common.pmap(_work_tree, [(t[0], t[1]) for t in trees])
     # (b') malformed expressions as link parameters: the state machine must refuse the schema
     malformed = sorted({c[0] for c in cases if c[2]["k"] == "malformed"})
+    if ctx.quick:  # building a state machine per expression is the slowest step: quick takes a seeded third, thorough all
+        malformed = sorted(common.sample(rng, malformed, 240))
     built = dict(zip(malformed, common.pmap(_work_construct, malformed)))
     # (a) status keys through the real response matcher
     matched = common.pmap(_work_status, [(s[0], s[1]) for s in statuses])
@@ -725,8 +727,11 @@ def run(ctx: Ctx) -> Outcome:
     t2 = time.time()
     live = []
     examples = 6 if ctx.quick else 25
-    for name, fam in FAMILIES.items():
-        live.extend(run_live(name, fam, ctx.seed + 1, examples))
+    import multiprocessing as mp
+
+    with mp.get_context("fork").Pool(len(FAMILIES)) as pool:  # one engine + loopback server per family, side by side
+        for part in pool.starmap(run_live, [(name, fam, ctx.seed + 1, examples) for name, fam in FAMILIES.items()]):
+            live.extend(part)
     # (d) link.extract on one stored output: every link alone and after a different link
     extract_records = [r for name, fam in FAMILIES.items() for r in run_extract(name, fam)]
     t_live = time.time() - t2
@@ -742,7 +747,7 @@ def run(ctx: Ctx) -> Outcome:
     incomplete_status = sum(1 for s, m in zip(statuses, matched) if set(m) != set(s[2]))
 
     # ---- code -> spec: TLC judges all disagreements, a sample of agreeing expression observations, every status and live observation
-    cap = 4000 if ctx.quick else 20000
+    cap = 2500 if ctx.quick else 20000
     dset = set(dis_expr)
     chosen = common.sample(rng, dis_expr, cap) + common.sample(rng, [i for i in range(len(cases)) if i not in dset], cap)
     records = [_expr_record(cases[i][0], cases[i][1], obs[i]) for i in chosen]
@@ -851,8 +856,8 @@ def run(ctx: Ctx) -> Outcome:
                  "derived_requests_by_family_and_key": live_keys},
         "rule": "Links.tla under %s: every (link key, documented key set of <=3 of 8 keys) x all statuses 100..599; every expression of "
                 "the family (well-formed bare forms, both body references with every pointer of <= PtrLen tokens over 17 token shapes, "
-                "embedded templates, all strings within one structural edit of the base set) x 2 exchanges; every malformed one also as a "
-                "link parameter; every value tree (7 shapes up to depth 4 through arrays x 5 leaves^2) x 2 exchanges through nested "
+                "embedded templates, all strings within one structural edit of the base set) x 2 exchanges; malformed ones also as a "
+                "link parameter (quick: seeded sample of 240, thorough: all); every value tree (7 shapes up to depth 4 through arrays x 5 leaves^2) x 2 exchanges through nested "
                 "evaluation; live: every link-derived request of the stateful phase on %d link families (incl. several links out of one "
                 "response), plus link.extract of every link alone and after every other link on the same stored output; non-trivial = spec "
                 "verdict is not U" % (cfg, len(FAMILIES)),
